@@ -13,6 +13,10 @@ cd "$W/repo"
 pkg=$(python3 -c "import json,sys;print(json.load(open('$D/meta.json')).get('package_dir_of_demo','.'))")
 prop=$(python3 -c "import json,sys;print(json.load(open('$D/meta.json'))['property'])")
 demo=$(ls "$D"/*_test.go 2>/dev/null | head -1)
+if [ -z "$demo" ] && ls "$D"/*_test.go.txt >/dev/null 2>&1; then
+  # stored seeds keep their demonstration as .txt so that it is not compiled as part of /verif
+  src=$(ls "$D"/*_test.go.txt | head -1); demo="$W/$(basename "${src%.txt}")"; cp "$src" "$demo"
+fi
 raceflag=""; if grep -q -- "-race" "$D/meta.json"; then raceflag="-race"; fi
 # run only the demonstration's own tests (the package may contain wall-clock sensitive tests)
 runpat=$(grep -ho "^func Test[A-Za-z0-9_]*" "$demo" 2>/dev/null | sed 's/^func //' | paste -sd'|')
